@@ -100,7 +100,7 @@ def work(task):
             p.nontrivial(wp.case_key(case))
         for key, what in vs:
             p.violate(key, what, wp.case_json(case))
-        if p.evals % 997 == 1:
+        if len(p.samples) < 2:
             p.sample(wp.sample_of(case))
     return p
 
